@@ -59,11 +59,11 @@ PROPS = {
         "case = (variant, forced backend, length, content pattern); systematic sweep of every length 0..3*bs+8 x 3 contents partitioned over shards, then random lengths up to 20 KB; distinct = distinct descriptor (all have a distinct message)",
         (20000, 500000), [REF, FORCE, SAMPLED], require_classes=["Blake384/", "Blake512/", "Blake224/", "Blake256/"]),
     "C05": P(
-        "runtime differential monitor: 81 Skein instantiations (27 output sizes x 3 state sizes) vs reference UBI/Threefish, every length 0..3*block+8 and random messages",
+        "runtime differential monitor: 102 Skein instantiations (34 output sizes, every residue mod 8, x 3 state sizes) vs reference UBI/Threefish, every length 0..3*block+8 and random messages",
         "Exploration: every digest is compared with an independent Skein 1.3 built on an independent Threefish (forward permutation, own rotation table).",
-        "Trusts the reference Skein (checked against the Skein 1.3 KATs and Threefish submission vectors). N is a type parameter: 27 values are instantiated.",
-        "case = (state size, N, length, content pattern); systematic sweep over lengths for 8 values of N per state size, random for all 27; distinct = distinct descriptor",
-        (20000, 500000), [REF, SAMPLED, "output sizes outside the instantiated menu of 27 values are not executed"]),
+        "Trusts the reference Skein (checked against the Skein 1.3 KATs and Threefish submission vectors). N is a type parameter: 34 values are instantiated.",
+        "case = (state size, N, length, content pattern); systematic sweep over lengths for 10 values of N per state size, random for all 34; distinct = distinct descriptor",
+        (20000, 500000), [REF, SAMPLED, "output sizes outside the instantiated menu of 34 values are not executed"]),
     "C06": P(
         "runtime differential monitor: JH digests and single F8 compressions (public Compressor and f8_impl::<M> on every machine) vs nibble-oriented reference E8",
         "Exploration: digests over every length 0..200 and random; F8 on random and one-hot/one-flip (state, block) pairs on every backend, compared with the specification-shaped (non-bit-sliced) reference.",
